@@ -504,7 +504,13 @@ struct Ctx {
     ptimes: Vec<(i64, i32)>,
     /// Ack ids delivered so far (PULL / SR results), in output order.
     acks: Vec<String>,
+    /// Handler futures driven poll by poll (`XH` / `XP`).
+    held: BTreeMap<String, (HeldPull, Arc<deltio::subscriptions::Subscription>)>,
 }
+
+type HeldPull = std::pin::Pin<
+    Box<dyn Future<Output = Result<tonic::Response<deltio::pubsub_proto::PullResponse>, Status>> + Send>,
+>;
 
 async fn run_ops(
     case: &Case,
@@ -614,6 +620,7 @@ async fn start(push_mode: bool) -> Result<Ctx, Fail> {
         streams: BTreeMap::new(),
         ptimes: Vec::new(),
         acks: Vec::new(),
+        held: BTreeMap::new(),
     })
 }
 
@@ -811,6 +818,7 @@ async fn exec(ctx: &mut Ctx, line: &str) -> OpResult {
                     streams: BTreeMap::new(),
                     ptimes: Vec::new(),
                     acks: ctx.acks.clone(),
+                    held: BTreeMap::new(),
                 };
                 tokio::spawn(async move { BgOut::Line(exec_boxed(&mut sub, inner).await) })
             };
@@ -1390,6 +1398,76 @@ async fn exec(ctx: &mut Ctx, line: &str) -> OpResult {
                 let _ = tokio::time::timeout(HANG_AFTER, f.as_mut()).await;
             }
             Ok(format!("XC {}", if done { "done" } else { "dropped" }))
+        }
+        "XH" => {
+            // XH <id> <sub> <max>: the server's own unary Pull handler (blocking form), called without the
+            // transport and polled by this task until it waits; it stays suspended until `XP`.
+            use deltio::pubsub_proto::subscriber_server::Subscriber;
+            let id = t.next().map_err(bad)?.to_string();
+            let sub_name = t.str().map_err(bad)?;
+            let max: i32 = t.num().map_err(bad)?;
+            t.end().map_err(bad)?;
+            let (tm, sm, _) = ctx.app.verif_parts();
+            let sub = SubscriptionName::try_parse(&sub_name)
+                .and_then(|n| sm.get_subscription(&n).ok())
+                .ok_or_else(|| bad("XH: no such subscription".into()))?;
+            let svc = deltio::verif::subscriber_service(tm, sm);
+            #[allow(deprecated)]
+            let req = PullRequest {
+                subscription: sub_name,
+                max_messages: max,
+                return_immediately: false,
+            };
+            let mut fut: HeldPull = Box::pin(async move { svc.pull(tonic::Request::new(req)).await });
+            let mut ready = false;
+            for _ in 0..4 {
+                if futures::poll!(fut.as_mut()).is_ready() {
+                    ready = true;
+                    break;
+                }
+                for _ in 0..32 {
+                    tokio::task::yield_now().await;
+                }
+            }
+            if !ready {
+                ctx.held.insert(id, (fut, sub));
+            }
+            Ok(format!("XH {}", if ready { "done" } else { "waiting" }))
+        }
+        "XP" => {
+            // XP <id> <fill> <k>: with `fill` requests put into the subscription's mailbox (each polled once, so
+            // it is queued or waits for room) the held handler is polled k times in a row - nothing else runs in
+            // between - and then dropped (the caller went away).
+            let id = t.next().map_err(bad)?.to_string();
+            let fill: usize = t.num().map_err(bad)?;
+            let k: usize = t.num().map_err(bad)?;
+            t.end().map_err(bad)?;
+            let (mut fut, sub) = ctx.held.remove(&id).ok_or_else(|| bad("XP: nothing held".into()))?;
+            type Fut = std::pin::Pin<Box<dyn Future<Output = ()> + Send>>;
+            let mut fillers: Vec<Fut> = Vec::new();
+            for _ in 0..fill {
+                let sub = Arc::clone(&sub);
+                fillers.push(Box::pin(async move { let _ = sub.get_stats().await; }));
+            }
+            for f in fillers.iter_mut() {
+                let _ = futures::poll!(f.as_mut());
+            }
+            let mut done = None;
+            for _ in 0..k {
+                if let std::task::Poll::Ready(r) = futures::poll!(fut.as_mut()) {
+                    done = Some(r);
+                    break;
+                }
+            }
+            drop(fut);
+            for mut f in fillers {
+                let _ = tokio::time::timeout(HANG_AFTER, f.as_mut()).await;
+            }
+            Ok(match done {
+                None => "XP dropped".to_string(),
+                Some(Ok(resp)) => format!("XP done 0 {}", resp.into_inner().received_messages.len()),
+                Some(Err(st)) => format!("XP done {}", st.code() as i32),
+            })
         }
         "REG" => {
             t.end().map_err(bad)?;
